@@ -167,6 +167,7 @@ Silent ==
        \/ HRecv
        \/ (stdinClosed /\ HCloseStdin)
        \/ CloseCancel
+       \/ HDrain              \* (after a cancelled server context) the draining goroutine has no event of its own
     /\ crashed' = "no"
 TErrq ==
     /\ Is("s.errq") /\ UNCHANGED vars
@@ -196,7 +197,7 @@ TSrvSent ==
 THRecv ==
     /\ Is("s.closure.recv") /\ UNCHANGED vars
     /\ hpc = "lock" /\ hmsg.r = R /\ hmsg.x = Ev.k
-THExit == Is("s.closure.exit") /\ Ev.k = "closed" /\ HClosed
+THExit == Is("s.closure.exit") /\ IF Ev.k = "ctx" THEN HCtxDone ELSE Ev.k = "closed" /\ HClosed
 TReturn == Is("s.return") /\ SrvReturn
 
 \* ------------------------------------------------------------------ scripted client (C07 sessions)
